@@ -736,6 +736,11 @@ def wide_geometry_case():
         if not rel(g, w_):
           bad.append("buck4_spline %r/%r/%r: %s at %s is %r, the end potential's %r" % (d, m, a, what, nm, g, w_))
     s5, s3 = it.spline5, it.spline3
+    # (the cubic piece is evaluated first, then the quintic at the same point: the pieces are independent objects)
+    c3 = (s3(m), s3.deriv(m), s3.deriv2(m))
+    c5 = (s5(m), s5.deriv(m), s5.deriv2(m))
+    if not rel(c5[0], c3[0]) or abs(c5[1]) > 1e-6 or not rel(c5[2], c3[2]):
+      bad.append("buck4_spline %r/%r/%r: at r_min (cubic piece evaluated first) values %r / %r, slope %r, curvatures %r / %r" % (d, m, a, c5[0], c3[0], c5[1], c5[2], c3[2]))
     if not rel(s5(m), s3(m)) or abs(s5.deriv(m)) > 1e-6 or not rel(s5.deriv2(m), s3.deriv2(m)):
       bad.append("buck4_spline %r/%r/%r: at r_min values %r / %r, slope %r, curvatures %r / %r" % (d, m, a, s5(m), s3(m), s5.deriv(m), s5.deriv2(m), s3.deriv2(m)))
     res["paths"] += 1
